@@ -154,7 +154,8 @@ def r2_project_grid(ctx):
                 oksp, whysp = False, "the default spacing is derived from the bounding box of the projected data even when another region is requested: the output grid has the wrong shape and spacing"
         ctx.check("R2", "%s|default-spacing|%s" % (PG, tag), oksp, "the default spacing is shape_to_spacing(region, shape)", bad=whysp, fn=PG)
         okcr = any(e.kind == "call" and callee(e.data[0]) == "verde.coordinates.check_region" and reg is not None and e.data[0][2] == (reg,) for e in p.events)
-        ctx.check("R2", "%s|check_region|%s" % (PG, tag), True if okcr else False, "the (given or default) region is validated", bad="the region is not validated", fn=PG)
+        anycr = any(e.kind == "call" and callee(e.data[0]) == "verde.coordinates.check_region" for e in p.events)
+        ctx.check("R2", "%s|check_region|%s" % (PG, tag), True if okcr else (None if anycr else False), "the (given or default) region is validated", bad="the region is not validated", fn=PG)
         # pipeline
         ch = [e.data[0] for e in p.events if e.kind == "call" and callee(e.data[0]) == "verde.chain.Chain"]
         if len(ch) != 1 or not ch[0][2] or ch[0][2][0][0] != "list":
